@@ -427,6 +427,8 @@ def check_cmdline(prog, case, wd, oracle_dir, vio, ck):
         base2 = base + "b"
         argv2 = [a if a != base else base2 for a in argv]
         rc2, out2 = prog.run(argv2, extra_env)
+        if rc2 == 124:
+            raise vlib.InfraError("bxdecay0-run timed out: %s" % argv2)
         d0t2 = read(base2 + ".d0t")
         res["runs"] = 2
         if d0t2 != d0t or rc2 != rc:
@@ -438,8 +440,8 @@ def check_cmdline(prog, case, wd, oracle_dir, vio, ck):
             pl = parse_lines(d0c)
             keys = [l[0] for l in pl["lines"]]
             kv = {l[0]: l[1] for l in pl["lines"]}
-            if pl["torn"] or not keys or keys[-1] != STATUS or keys.count(STATUS) != 1:
-                bad("status-marker", "complete event file but the companion file does not end with its completion marker")
+            if pl["torn"] or keys.count(STATUS) != 1:
+                bad("status-marker", "normal exit with a complete event file, but the companion file does not carry its completion marker")
             req = set(plan["req"])
             missing = sorted(req - set(keys))
             if missing:
@@ -453,9 +455,7 @@ def check_cmdline(prog, case, wd, oracle_dir, vio, ck):
             if st is not None:
                 for line in st.decode().splitlines():
                     k, _, v = line.partition("=")
-                    if k == "nb-events" and conc.get("n"):
-                        v = str(conc["n"])
-                    if k in kv and not same_value(kv[k], v):
+                    if k in SETTING_KEYS and k in kv and not same_value(kv[k], v):
                         if k == "mdl.particle_label" and v == "" and kv[k] == "all":
                             continue
                         bad("header-value", "companion file: %s=%s, in effect: %s" % (k, kv[k], v))
@@ -703,6 +703,46 @@ def validate_traces(ck, execs, vio, label):
     return accepted
 
 
+def tlc_accepts(events):
+    wd = vlib.workdir("c13-ctl")
+    path = os.path.join(wd, "t.ndjson")
+    with open(path, "w") as f:
+        for e in events:
+            f.write(json.dumps({k: v for k, v in e.items() if k != "inferred"}) + "\n")
+    r = vlib.tlc("TraceDriver", "TraceDriver.cfg", workers=1, env={"TRACE": path}, timeout=300)
+    if r.error:
+        raise vlib.InfraError("TraceDriver: " + r.error)
+    shutil.rmtree(wd, ignore_errors=True)
+    return r.violated is None and r.depth == len(events), r
+
+
+def negative_controls(ck, execs):
+    """the validation must be able to say no: a recorded complete execution, corrupted in ways that break C13, has to be
+    rejected by TLC (otherwise the machinery, not the program, is broken)"""
+    ex = next((x for x in execs if x["events"][-2]["e"] == "Exit" and any(e["e"] == "WriteStatus" for e in x["events"])), None)
+    if ex is None:
+        return
+    ev = ex["events"]
+    ok, r = tlc_accepts(ev)
+    if not ok:
+        return          # already reported as a violation by validate_traces
+    ck.tlc_stats(r, "TraceDriver(control: the unmodified execution)")
+    i_close = next(i for i, e in enumerate(ev) if e["e"] == "CloseEvents")
+    i_stat = next(i for i, e in enumerate(ev) if e["e"] == "WriteStatus")
+    controls = {
+        "status-before-close": ev[:i_close] + ev[i_stat:i_stat + 2] + ev[i_close:i_stat] + ev[i_stat + 2:],
+        "disk-lacks-last-unit": ev[:-1] + [dict(ev[-1], t=ev[-1]["t"][:-1])],
+        "id-gap": [dict(e, id=e["id"] + 1) if (e["e"] == "WriteEvent" and e["id"] >= 1) else e for e in ev],
+        "record-after-close": ev[:i_close + 1] + [{"e": "WriteEvent", "id": ev[0]["n"]}] + ev[i_close + 1:],
+    }
+    for name, c in controls.items():
+        ok, r = tlc_accepts(c)
+        ck.tlc_stats(r, "TraceDriver(control: %s)" % name)
+        if ok:
+            raise vlib.InfraError("negative control '%s' was accepted by TraceDriver: trace validation cannot reject" % name)
+        ck.add("negative_controls_rejected")
+
+
 # ----------------------------------------------------------------------------- kill points
 
 def kill_configs(tier):
@@ -777,6 +817,8 @@ def kill_points(prog, plans_by_sig, tier, ck, vio, wd, only=None):
             a2 = [x if x != base + "-ref" else kb for x in argv]
             env = {"LD_PRELOAD": prog.shim, "KILLW_LOG": kb + ".log", "KILLW_AT": str(k), "KILLW_BYTES": str(b)}
             rc2, out2 = prog.run(a2, env)
+            if rc2 == 124:
+                raise vlib.InfraError("kill run timed out: %s" % a2)
             res = (k, b, rc2, out2, shim_log(kb + ".log"), read(kb + ".d0t"), read(kb + ".d0c"))
             for p in (kb + ".log", kb + ".d0t", kb + ".d0c"):
                 if os.path.exists(p):
@@ -819,7 +861,9 @@ def kill_points(prog, plans_by_sig, tier, ck, vio, wd, only=None):
             except ValueError as e:
                 vio.add("observation", kkey + ":observation", "%s: %s" % (where, e), rep)
         ck.sample({"kill_config": cfg["name"], "argv": " ".join(a.replace(wd + "/", "") for a in argv), "kill_points": len(points),
-                   "example": "kill after %d of %d bytes of write #%d" % (points[len(points) // 2][1], writes[points[len(points) // 2][0] - 1][2], points[len(points) // 2][0])}, cap=12)
+                   "example": "SIGKILL at write #%d (%d bytes requested) after %s" % (
+                       points[len(points) // 2][0], writes[points[len(points) // 2][0] - 1][2],
+                       "the whole buffer" if points[len(points) // 2][1] < 0 else "%d bytes" % points[len(points) // 2][1])}, cap=12)
     return execs
 
 
@@ -892,27 +936,45 @@ def select_cases(grid, tier, rng, bkg, dbd, ga):
         chosen = []
         for k in sorted(by):
             chosen += rng.sample(by[k], min(len(by[k]), 6))
+        # every command line that differs from a base command line in exactly one independent option group
+        # (the sharpest tests: nothing else can mask the one rule)
+        def ndev(c):
+            return sum(1 for f in ("seed", "count", "act", "mdl", "fault") if c[f] != DEFAULTS[f])
+        cid = {id(g) for g in chosen}
+        chosen += [g for g in others if ndev(g["cl"]) == 1 and id(g) not in cid]
+        # every refusal that only the admission rules of the engine produce (level / mode / window against the table)
+        engine = ("level:4b-excited", "level:not-tabulated", "level:not-enough-energy", "mode:spin", "mode:sign", "mode:4b-nuclide",
+                  "mode:gA-level", "mode:gA-no-data", "window:inverted", "window:mode-without-window")
+        cid = {id(g) for g in chosen}
+        chosen += [g for g in others if g["plan"]["why"] in engine and ndev(g["cl"]) == 0 and id(g) not in cid]
         cid = {id(g) for g in chosen}
         rest = [g for g in others if id(g) not in cid]
-        chosen += rng.sample(rest, min(len(rest), 220))
+        chosen += rng.sample(rest, min(len(rest), 500))
         # accepted: the whole core, and a sample of the option combinations around the bases
         core = [g for g in runs if all(g["cl"][f] == DEFAULTS[f] for f in ("seed", "count", "act", "mdl", "fault"))]
         cid = {id(g) for g in core}
         around = [g for g in runs if id(g) not in cid]
-        runs = core + rng.sample(around, min(len(around), 90))
+        runs = core + rng.sample(around, min(len(around), 150))
     for g in runs + chosen:
         cl = g["cl"]
         variants = [0] if tier == "quick" else [0, 1 + rng.randrange(50)]
         if cl["fault"] == "dangling":
-            opts = VALUE_OPTS if tier == "thorough" else rng.sample(VALUE_OPTS, 3)
+            single = sum(1 for f in ("seed", "count", "act", "mdl") if cl[f] != DEFAULTS[f]) == 0
+            opts = VALUE_OPTS if (tier == "thorough" or single) else rng.sample(VALUE_OPTS, 3)
             for o in opts:
-                for perturb in (0, 165, 204):
+                for perturb in ((0, 165, 204) if (tier == "thorough" or not single) else (0, 204)):
                     cases.append({"cl": cl, "plan": g["plan"], "conc": {"variant": rng.randrange(6), "dang": o, "perturb": perturb}})
             continue
-        if cl["fault"] == "unknown" and tier == "thorough":
+        if cl["fault"] == "unknown" and (tier == "thorough" or sum(1 for f in ("seed", "count", "act", "mdl") if cl[f] != DEFAULTS[f]) == 0):
             variants = list(range(len(UNKNOWN_OPTS)))
         for v in variants:
-            cases.append({"cl": cl, "plan": g["plan"], "conc": {"variant": v if v else rng.randrange(3) if tier == "quick" else v}})
+            conc = {"variant": v if v else rng.randrange(3) if tier == "quick" else v}
+            if g["plan"]["verdict"] == "run" and cl["count"] == ABSENT:
+                # the model's default is one record; also ask the same settings for a few more (explicit -n)
+                nn = rng.choice([None, 2, 3, 5])
+                if nn:
+                    conc["n"] = nn
+            cases.append({"cl": cl, "plan": g["plan"], "conc": conc})
     # catalogue sweep: every published background name is accepted; every published name is refused in the other
     # category unless published there too; unknown names are refused
     b = dict(DEFAULTS)
@@ -957,10 +1019,10 @@ def run(tier, replay):
         ck.violation("model:" + r.violated, "Driver.tla violates %s on the model" % r.violated, {"trace": r.trace})
         return ck.finish()
     dump = os.path.join(wd, "cmdline")
-    r = vlib.tlc("MCCmdLine", "MCCmdLine.cfg", dump=dump, workers=NPAR)
+    r = vlib.tlc("MCCmdLine", "MCCmdLineThorough.cfg" if thorough and not only else "MCCmdLine.cfg", dump=dump, workers=NPAR)
     if r.error:
         raise vlib.InfraError(r.error)
-    ck.tlc_stats(r, "MCCmdLine(grid)")
+    ck.tlc_stats(r, "MCCmdLine(%s grid)" % ("thorough" if thorough and not only else "quick"))
     if r.violated:
         ck.violation("model:" + r.violated, "CmdLine.tla violates %s on the model" % r.violated, {"trace": r.trace})
         return ck.finish()
@@ -1029,7 +1091,14 @@ def run(tier, replay):
         ck.set("distinct_accepted_cases", len(distinct))
         ck.set("distinct_refusal_rules_exercised", len(reasons))
         ck.set("cmdline_grid_exhaustive", exhaustive)
-        for c in [c for c, res in zip(cases, results) if res["obs"] == "ran"][:3] + [c for c, res in zip(cases, results) if res["obs"] == "norun"][:3]:
+        shown, picked = set(), []
+        for c, res in zip(cases, results):
+            tag = (res["obs"], c["plan"]["verdict"], c["cl"]["cat"], c["cl"]["mdl"] != "none", c["cl"]["fault"], (c["plan"].get("why") or "").split(":")[0])
+            if tag not in shown and res["obs"] in ("ran", "norun"):
+                shown.add(tag)
+                picked.append(c)
+        rng.shuffle(picked)
+        for c in picked[:7]:
             argv, _ = concretise(c["cl"], "BASE", c["conc"])
             ck.sample({"command_line": "bxdecay0-run " + " ".join(argv), "model": sig(c["cl"]), "verdict": c["plan"]["verdict"],
                        "why": c["plan"].get("why")}, cap=12)
@@ -1064,9 +1133,13 @@ def run(tier, replay):
     for i in range(0, len(execs), chunk):
         nacc += validate_traces(ck, execs[i:i + chunk], vio, "batch %d" % (i // chunk))
     ck.set("traces_validated_against_impl", nacc)
+    if not only:
+        negative_controls(ck, execs)
     ck.set("trace_events", sum(len(x["events"]) for x in execs))
     if execs:
-        ck.sample({"trace": [{k: v for k, v in e.items()} for e in execs[min(3, len(execs) - 1)]["events"][:40]], "of": execs[min(3, len(execs) - 1)]["what"]}, cap=12)
+        short = [x for x in execs if len(x["events"]) <= 45] or execs
+        x = max(short, key=lambda x: (len({e["e"] for e in x["events"]}), len(x["events"])))
+        ck.sample({"trace": x["events"][:45], "of": x["what"]}, cap=12)
 
     nontrivial = ck.cov.get("distinct_accepted_cases", 0) + ck.cov.get("kill_points_with_durable_bytes", 0) + ck.cov.get("distinct_refusal_rules_exercised", 0)
     ck.set("distinct_nontrivial", nontrivial)
@@ -1086,4 +1159,13 @@ def run(tier, replay):
         "gA tables %s" % ("mounted: mode 21 command lines skipped" if ga else "not mounted: modes 21..24 must be refused"),
     ]
     shutil.rmtree(wd, ignore_errors=True)
+    if only:
+        # a replay re-executes one case: it must not replace the evidence of the last full run
+        evp = os.path.join(vlib.EVID, PID + ".json")
+        keep = read(evp)
+        rc = ck.finish()
+        if keep is not None:
+            with open(evp, "wb") as f:
+                f.write(keep)
+        return rc
     return ck.finish()
